@@ -430,8 +430,14 @@ func (p *postHandshake) processPostHandshakeMessages(ctx context.Context, conn C
 
 			return err
 		}
+		consumedBefore := p.state.HandshakeRecvSequence
 		if err := p.handlePostHandshakeMessage(ctx, conn, message, item.Epoch); err != nil {
 			return err
+		}
+		if p.state.HandshakeRecvSequence == consumedBefore {
+			// The message was answered with a fatal alert and was not consumed.
+			// Carrying on would pull and answer it again, forever.
+			return dtlserrors.ErrUnexpectedPostHandshakeMessage
 		}
 	}
 
